@@ -2,7 +2,7 @@
     of the library as a function from a list of byte strings to a result
     class and a list of byte strings (the projected observables).  The Go
     harness implements the same table on top of the real code. *)
-From DV Require Import Base.Bytes Label.Model V4.Model V6.Model V6.Dump.
+From DV Require Import Base.Bytes Label.Model V4.Model V4.Accessors V6.Model V6.Dump.
 
 
 (** entry 1: rfc1035label.FromBytes(b) -> Labels *)
@@ -103,6 +103,43 @@ Definition e_v6_opt_reenc (args : list bytes) : res (list bytes) :=
   | [c; d] => let* o := parse_option (n_of_be c) d in if opt_panics o then Panic else Ok [enc_val o]
   | _ => Err end.
 
+(** * DHCPv4 typed accessors (entry 30): args = accessor id, presence flag, raw value *)
+Definition some_flag : bytes := [x01].
+Definition none_flag : bytes := [x00].
+Definition obs_opt_bytes (o : option bytes) : list bytes := match o with Some v => [some_flag; v] | None => [none_flag] end.
+Definition obs_opt_list (o : option (list bytes)) : list bytes := match o with Some l => some_flag :: l | None => [none_flag] end.
+
+Definition accessor_obs (id : N) (g : option bytes) : list bytes :=
+  match id with
+  | 1 => obs_opt_bytes (acc_ip g)
+  | 2 => obs_opt_list (acc_ips g)
+  | 3 => [acc_string g]
+  | 4 => [acc_string_trim g]
+  | 5 | 6 => match acc_duration g with Some n => [some_flag; be32 n] | None => [none_flag] end
+  | 7 => match acc_u16 g with Some n => [some_flag; be16 n] | None => [none_flag] end
+  | 8 => match acc_u8 g with Some n => [some_flag; [n2b n]] | None => [none_flag] end
+  | 9 => [[n2b (match acc_u8 g with Some n => n | None => 0 end)]]
+  | 10 => obs_opt_bytes (acc_prl g)
+  | 11 => match acc_relay g with Some m => some_flag :: obs_opts m | None => [none_flag] end
+  | 12 => obs_opt_bytes (acc_ip g)
+  | 13 => obs_opt_list (acc_user_class g)
+  | 14 => match acc_vivc g with
+          | Some l => some_flag :: flat_map (fun e => [be32 (fst e); snd e]) l | None => [none_flag] end
+  | 15 => match acc_archs g with Some l => [some_flag; flat_map be16 l] | None => [none_flag] end
+  | 16 => obs_opt_list (acc_domain_search g)
+  | 17 => match acc_routes g with
+          | Some l => some_flag :: flat_map (fun r => [[n2b (r_ones r)]; r_dest r; r_router r]) l | None => [none_flag] end
+  | _ => []
+  end%N.
+
+Definition e_v4_accessor (args : list bytes) : res (list bytes) :=
+  match args with
+  | [id; flag; v; _] =>        (* 4th argument: the option code the Go accessor reads (not interpreted) *)
+    let g := match flag, v with [x01], _ :: _ => Some v | _, _ => None end in
+    Ok (accessor_obs (n_of_be id) g)
+  | _ => Err
+  end.
+
 Definition run (entry : N) (args : list bytes) : res (list bytes) :=
   match entry with
   | 1 => e_label_from args
@@ -115,6 +152,7 @@ Definition run (entry : N) (args : list bytes) : res (list bytes) :=
   | 13 => e_v4_opts args
   | 14 => e_v4_encdec args
   | 20 => e_v6_dec args
+  | 30 => e_v4_accessor args
   | 21 => e_v6_reenc args
   | 22 => e_v6_opt args
   | 23 => e_v6_message args
